@@ -27,7 +27,7 @@ LEVEL = "exploration"
 SHARDS = {"quick": 8, "thorough": 16}
 RULE = ("seeded documents (valid and purposely invalidated as in C08) x random histories of 6-20 steps out of "
         "{default validation of document/Section/Property, report(), custom validation with a sentinel rule, "
-        "object creation, cardinality changes, save, load} with the registry fingerprint compared after every "
+        "object creation, cardinality changes, save and load in XML / JSON / YAML / RDF through odml.save and ODMLWriter.to_string} with the registry fingerprint compared after every "
         "step; plus batches of documents re-validated in child processes under different PYTHONHASHSEED values; "
         "non-trivial = history containing a custom validation and a default validation; distinct = hash of "
         "(document spec without ids, history)")
@@ -177,9 +177,14 @@ def run_history(case, ctx, sdir):
                 elif name == "save":
                     p = os.path.join(sdir, "c19.%s" % step[1].lower())
                     try:
-                        odml.save(doc, p, step[1])
-                    except Exception:
-                        pass
+                        if si % 3 == 2:
+                            from odml.tools.odmlparser import ODMLWriter
+                            ODMLWriter(step[1]).to_string(doc)
+                        else:
+                            odml.save(doc, p, step[1])
+                        rec.count("saves", step[1])
+                    except Exception as exc:
+                        rec.count("saves", "%s:refused-%s" % (step[1], type(exc).__name__))
                 elif name == "load":
                     p = os.path.join(sdir, "c19.%s" % step[1].lower())
                     if os.path.exists(p):
@@ -222,7 +227,7 @@ def gen_steps(rng, n):
         elif k == "card":
             steps.append(["card", rng.randrange(10 ** 6), enc(rng.choice([None, (1, 2), (None, 1), (3, None), 2]))])
         else:
-            steps.append([k, rng.choice(["XML", "JSON", "YAML"])])
+            steps.append([k, rng.choice(["XML", "JSON", "YAML", "RDF"])])
     return steps
 
 
